@@ -1241,6 +1241,16 @@ GROUPS.append(("FnsMapNew.lean", ["Sds.Model.GenStructs", "Sds.Model.GenSupport"
          paths={"PAYLOAD": ("(len, (file.toList.drop (offset + 1)).take ((len + 7) / 8))", ("N", "SlicePayload"))}),
     dict(file="serialize.rs", impl=r"impl<'a> MemoryMapped<'a> for MappedBytes<'a>", fn="map_len", name="gen_MappedBytes_map_len", self=MS_SELF,
          calls=dict(VIEW_CALLS, **{"bits::bytes_to_words": dict(lean="gen_bytes_to_words m {0}", ret=U, args=[U])})),
+    # `MappedStr::new`: the range tests of `MappedBytes::new`, then `str::from_utf8(bytes).map_err(..)?` — the validity test of
+    # the standard library is the NAMED parameter `valid` (as in the model's string codec); an invalid payload is `InvalidData`
+    dict(file="serialize.rs", impl=r"impl<'a> MemoryMapped<'a> for MappedStr<'a>", fn="new", name="gen_MappedStr_new",
+         calls=dict(VIEW_CALLS, **{"bits::bytes_to_words": dict(lean="gen_bytes_to_words m {0}", ret=U, args=[U]),
+                                   "utf8_check": dict(lean="(if valid (payloadBytes {0}) then ok () else fault (.err .invalid))", ret=UNIT, args=[("N", "SlicePayload")])}),
+         params=MAP_PARAMS, binders=["(valid : List UInt8 → Bool)"],
+         tyalias={"Self": MSLICE}, ret=MSLICE, err_as_fault=True, structs_over={"MappedStr": STRUCTS["MappedSlice"]},
+         source_subst=[(r"let\s+source\s*:\s*&\[u64\]\s*=\s*&slice\[offset \+ 1 \.\.\];\s*let\s+bytes\s*:\s*&\[u8\]\s*=\s*unsafe\s*\{\s*slice::from_raw_parts\(source\.as_ptr\(\) as \*const u8, len\)\s*\};\s*let data = str::from_utf8\(bytes\)\.map_err\(\|_\| Error::new\(ErrorKind::InvalidData, \"Invalid UTF-8\"\)\)\?;",
+                        "let data = PAYLOAD; utf8_check(data);")],
+         paths={"PAYLOAD": ("(len, (file.toList.drop (offset + 1)).take ((len + 7) / 8))", ("N", "SlicePayload"))}),
     dict(file="raw_vector.rs", impl=IMPL_RM, fn="new", name="gen_RawVectorMapper_new", calls=VIEW_CALLS, params=MAP_PARAMS, tyalias={"Self": RAWMAP}, ret=RAWMAP,
          err_as_fault=True),
     dict(file="raw_vector.rs", impl=IMPL_RM, fn="map_offset", name="gen_RawVectorMapper_map_offset", self=RM_SELF, calls=view_calls("MappedSlice")),
